@@ -25,11 +25,7 @@ pub fn generate(seed: u64, index: u64, thorough: bool) -> Scenario {
     } else {
         ModelKind::Hand
     };
-    let sizes = if rng.chance(if thorough { 0.5 } else { 0.4 }) {
-        LARGE
-    } else {
-        SMALL
-    };
+    let sizes = pick_sizes(&mut rng, thorough, if thorough { 0.5 } else { 0.4 });
     let start = *rng.pick(&[Start::Near, Start::Mid, Start::Far]);
     let noise = *rng.pick(&[0.0, 1e-3, 5e-2, 0.3]);
     let (mut sc, d) = base_scenario(&mut rng, "C11", seed, index, kind, sizes, true, start, noise);
